@@ -248,6 +248,24 @@ class SlowSock:
         return getattr(self._sock, name)
 
 
+BACKLOG_TASK = """
+import time
+fin = channel.gateway.execmodel.Event()
+answers = channel.receive()
+
+def consume(item):
+    if item is None or item == "END":
+        fin.set()
+        return
+    time.sleep(0.005)  # slow consumer: the receiver thread is busy, data piles up on the way
+    answers.send((item[:1], len(item)))
+
+channel.setcallback(consume, endmarker=None)
+fin.wait()
+answers.send("finished")
+"""
+
+
 def run_config(spec):
     import execnet
 
@@ -272,9 +290,18 @@ def run_config(spec):
         late = gw.remote_exec("import time\nsub = channel.gateway.newchannel()\nchannel.send(sub)\ntime.sleep(0.3)\n"
                               "for i in range(3):\n    sub.send(('late-sub', i))\nchannel.send('late-item')\nchannel.send('bye')\n")
         lsub = late.receive(30)
+        # ... and what was sent *to* the worker before exit() is still processed there: a backlog of items larger than a
+        # pipe for a slow consumer, the exit request right behind it (it must not overtake the data anywhere on the way)
+        NB, SB = (30, 80 * 1024)
+        backlog = gw.remote_exec(BACKLOG_TASK)
+        answers = gw.newchannel()
+        backlog.send(answers)
+        for i in range(NB):
+            backlog.send(bytes([i]) * SB)
+        backlog.send("END")
         gw.exit()
         drained = []
-        for c in (late, lsub):
+        for c in (late, lsub, answers):
             part = []
             try:
                 while True:
@@ -285,8 +312,13 @@ def run_config(spec):
                 part.append(type(e).__name__)
             drained.append(part)
         want_late = [["late-item", "bye", "EOF"], [("late-sub", 0), ("late-sub", 1), ("late-sub", 2), "EOF"]]
-        if drained != want_late:
-            res.violation(f"items-sent-after-exit-request-lost:{label}", f"{drained} != {want_late}")
+        if drained[:2] != want_late:
+            res.violation(f"items-sent-after-exit-request-lost:{label}", f"{drained[:2]} != {want_late}")
+        want_answers = [(bytes([i]), SB) for i in range(NB)] + ["finished", "EOF"]
+        if drained[2] != want_answers:
+            res.violation(f"items-sent-before-exit-request-not-processed:{label}",
+                          f"{len([a for a in drained[2] if isinstance(a, tuple)])} of {NB} items were answered; tail {short(drained[2][-3:])}")
+        res.count("backlog_items_before_exit", NB)
         trs.append(drained)
         res.count("configs")
         res.case(core.h64("config", label))
